@@ -5,7 +5,6 @@ import (
 
 	"github.com/bradenaw/juniper/stream"
 
-	"verifsim/context"
 	"verifsim/sim"
 )
 
@@ -26,7 +25,7 @@ type pipeSendPlan struct {
 func pipeWorld(r *R) {
 	buf := []int{0, 1, 1, 2, 3}[r.Choose(5, "buf")]
 	nSenders := 1 + r.Choose(3, "senders")
-	root := NewCtx(context.Background(), "root")
+	root := NewCtx(nil, "root")
 	cs := &Calls{r: r}
 	sender, recv := stream.Pipe[int](buf)
 	bufClass := "buf0"
@@ -38,15 +37,12 @@ func pipeWorld(r *R) {
 	mkCtx := func(kind int, name string) *Ctx {
 		switch kind {
 		case 1:
-			c := NewCtx(root.C, name)
+			c := NewCtx(root, name)
 			cancellable = append(cancellable, c)
 			return c
 		case 2:
-			c := NewCtx(root.C, name)
-			c.Cancelled = true
-			c.cancel()
 			r.Fault("ctx_precancelled")
-			return c
+			return PreCancelled(root, name)
 		}
 		return root
 	}
